@@ -188,12 +188,19 @@ def _ev(model, term, default=0):
     return default
 
 
-def seq_to_bytes(model, v, cap=40, registry=None):
+def seq_to_bytes(model, v, cap=70000, registry=None):
     """Concrete bytes for a (possibly opaque) byte string under a model.  Opaque strings get
     distinct filler content (so that different identities stay different) of the model's length,
     capped at `cap`; `registry` maps opaque identities to bytes already chosen."""
     if v.elems is not None:
-        return bytes(_ev(model, x.v) & 0xFF for x in v.elems)
+        out = b""
+        for x in v.elems:
+            if isinstance(x, Sc):
+                out += bytes([_ev(model, x.v) & 0xFF])
+            else:                       # opaque segment of a concatenation
+                from values import VecV as _V
+                out += seq_to_bytes(model, _V(None, x, "vec"), cap, registry)
+        return out
     ident = v.opaque.ident
     if registry is not None and ident in registry:
         return registry[ident]
@@ -230,7 +237,7 @@ def node_to_tree(model, node, registry=None, fill=("null",)):
             return ("bytes", enc)
         return ("bytes", seq_to_bytes(model, node.bytes, registry=registry))
     if k == "Text":
-        return ("text", seq_to_bytes(model, node.text, registry=registry).decode("latin-1"))
+        return ("text", seq_to_bytes(model, node.text, registry=registry))      # UTF-8 bytes, kept as bytes
     if k == "Float":
         return ("float", _ev(model, node.float))
     if k == "Bool":
@@ -263,7 +270,7 @@ def value_to_tree(model, v, registry=None):
     if k == "Bytes":
         return ("bytes", seq_to_bytes(model, f[0], registry=registry))
     if k == "Text":
-        return ("text", seq_to_bytes(model, f[0], registry=registry).decode("latin-1"))
+        return ("text", seq_to_bytes(model, f[0], registry=registry))
     if k == "Float":
         return ("float", _ev(model, f[0].v))
     if k == "Bool":
